@@ -99,6 +99,8 @@ mod string;
 #[cfg(test)]
 mod test;
 mod types;
+#[cfg(rustfmt_verif)]
+mod verif_hooks;
 mod vertical;
 pub(crate) mod visitor;
 
@@ -303,6 +305,8 @@ impl fmt::Display for FormatReport {
 fn format_snippet(snippet: &str, config: &Config, is_macro_def: bool) -> Option<FormattedSnippet> {
     let mut config = config.clone();
     panic::catch_unwind(|| {
+        #[cfg(rustfmt_verif)]
+        crate::verif_hooks::fault_point("format_snippet", snippet);
         let mut out: Vec<u8> = Vec::with_capacity(snippet.len() * 2);
         config.set().emit_mode(config::EmitMode::Stdout);
         config.set().verbose(Verbosity::Quiet);
